@@ -491,3 +491,45 @@ def r03_5(ctx):
             ctx.bad(f"{short}|accessor-before-check_len", f"{pk} touches a field before / without the check_len result being Ok", body=pb, bb=bad[0][0], path=bad[0][1])
         else:
             ctx.ok((short, 'check_len-first'), sample=dict(parser=short, used_by=users[0][0].rsplit('::', 1)[-1]))
+
+
+@rule('R03.6', ['C03'], floor=2, clause='SLAAC builds a CIDR (which asserts prefix_len <= 128) only from prefix information that passed is_valid_prefix_info(), and that test bounds the prefix length')
+def r03_6(ctx):
+    F = ctx.F
+    SL = 'iface::slaac::Slaac'
+    pa = ctx.method(SL, 'process_advertisement')
+    pp = ctx.method(SL, 'process_prefix')
+    sites = [x[0] for x in pa.calls() if pa.callee_name(x[1]) == pp.key]
+    ctx.need(sites, "process_prefix call in Slaac::process_advertisement")
+    valid = lambda f: f[0] == 'bool' and f[2] is True and is_call(strip(f[1]), 'is_valid_prefix_info')
+    bad = unguarded(F, pa, sites, valid)
+    if bad:
+        ctx.bad("Slaac::process_advertisement|unvalidated-prefix", "a router advertisement's prefix information reaches process_prefix (Ipv6Cidr::new asserts "
+                "prefix_len <= 128) without is_valid_prefix_info()", body=pa, bb=bad[0][0], path=bad[0][1])
+    else:
+        ctx.ok(('slaac', 'validated-prefix'), sample=dict(fn='Slaac::process_advertisement', guard='prefix.is_valid_prefix_info()'))
+    callers = [c for c in F.callers(pp.key) if c != pa.key and not c.endswith('::test') and '::test::' not in c and '::tests::' not in c]
+    if callers:
+        ctx.bad("Slaac::process_prefix|other-callers", f"process_prefix is also called from {callers[:3]}", body=pp)
+    v = ctx.method('wire::ndiscoption::PrefixInformation', 'is_valid_prefix_info')
+    # every path on which is_valid_prefix_info yields true passes `prefix_len <= 128`
+    trues = []
+    for bi, bl in enumerate(v.blocks):
+        if bl['cl']:
+            continue
+        for s in bl['s']:
+            if s[0] == 'a' and s[1] == [0, []]:
+                o = s[2]
+                if not (o[0] == 'use' and o[1][0] == 'k' and o[1][2] is False):
+                    trues.append(bi)
+        if bl['t'][0] == 'call' and bl['t'][3] == [0, []]:
+            trues.append(bi)      # the last conjunct is returned directly
+    le128 = lambda f: f[0] == 'rel' and ((f[1] in ('Le', 'Lt') and any(l.endswith('.prefix_len') for l in leafs(f[2])) and (const_int(simplify(f[3])) or 999) <= (128 if f[1] == 'Le' else 129))
+                                         or (f[1] in ('Ge', 'Gt') and any(l.endswith('.prefix_len') for l in leafs(f[3])) and (const_int(simplify(f[2])) or 999) <= (128 if f[1] == 'Ge' else 129)))
+    ctx.need(trues, "result stores in is_valid_prefix_info")
+    bad = unguarded(F, v, trues, le128)
+    if bad:
+        ctx.bad("is_valid_prefix_info|prefix_len-unbounded", "is_valid_prefix_info() can return true for a prefix length above 128: SLAAC then panics in "
+                "Ipv6Cidr::new on a crafted router advertisement", body=v, bb=bad[0][0])
+    else:
+        ctx.ok(('is_valid_prefix_info', 'prefix_len<=128'), sample=dict(fn='is_valid_prefix_info', clause='prefix_len <= 128'))
